@@ -3,14 +3,13 @@ CONSTANTS
   Ladder <- LadderSeq
   MaxTlv = 65535
   SfiOffsets = TRUE
-  Sizes <- SizesQ
-  MaxLes = {1, 3, 4, 5, 128, 255, 256, 257, 4096, 65536}
-  Caps = {0, 1, 5, 100, 256}
-  RejectOvers = {0, 255, 128, 100}
-  HdrNs = {0, 1, 2, 3, 4}
-  Policies = {"any"}
+  Sizes <- SizesA
+  MaxLes = {256, 65536}
+  Caps = {0, 100}
+  RejectOvers = {0}
+  HdrNs = {4}
+  Policies = {"any", "max", "one"}
   SelSws = {"9000", "6A82", "6283", "6982"}
   Slack = {0, 7}
 SPECIFICATION Spec
 INVARIANTS Exact NotFound Bounded
-PROPERTY Terminates
